@@ -60,11 +60,13 @@ func c11Setup(t testing.TB) *c11World {
 		if err != nil {
 			t.Fatalf("setup user %s: %v", name, err)
 		}
+		v.waitFeed() // a principal rewritten before its previous mutation is delivered loses that sequence on the feed
 	}
 	_, _, err := v.db.UpdatePrincipal(ctx, &auth.PrincipalConfig{Name: base.Ptr("r1"), ExplicitChannels: base.SetOf("R")}, false, false)
 	if err != nil {
 		t.Fatalf("setup role: %v", err)
 	}
+	v.waitFeed()
 	mkUser("alice", "A")
 	mkUser("carol", "A")
 	var d *Document
